@@ -13,7 +13,7 @@ _RUNS = 0
 
 
 def _tlc_cmd(spec, cfg, metadir, workers, extra=(), heap="2g"):
-    return _JAVA + [f"-Xmx{heap}", "-cp", common.TLA_CP, "tlc2.TLC", "-workers", str(workers), "-metadir", metadir,
+    return _JAVA + [f"-Djava.io.tmpdir={common.scratch()}", f"-Xmx{heap}", "-cp", common.TLA_CP, "tlc2.TLC", "-workers", str(workers), "-metadir", metadir,
                     "-noGenerateSpecTE", "-config", cfg] + list(extra) + [spec]
 
 
